@@ -39,6 +39,16 @@
                          the closure of the selection has its final report (an exception that cuts the run short -- an
                          uptodate callable raising, a cycle found while dispatching, KeyboardInterrupt / SystemExit from
                          an action -- must show in the exit code: 3, or the exception propagates)
+      C19_text           (wave 5) character-exact: what the real ConsoleReporter / ExecutedOnlyReporter / ZeroReporter /
+                         ErrorOnlyReporter wrote to outstream (and, driven directly, to sys.stderr) equals the text of
+                         Model/ReportText.lean for the reporter calls that really happened -- (a) the classes driven
+                         directly with generated call sequences (harness/c19text.py: real Task / TaskFailed / TaskError /
+                         UnmetDependency ... objects, names with a leading / inner underscore, tasks without actions,
+                         custom titles, report=False, two failures of one task, runtime errors, complete_run anywhere,
+                         failure_verbosity 0/1/2 x task verbosity 0/1/2); (b) every end-to-end run with a console-family
+                         reporter (the tee records the calls with name / title / bool(actions) and, at complete_run,
+                         executed / verbosity / captured out+err of the failed tasks).  Plus `console_decode` evaluated on
+                         the real text: the `.  ` / `-- ` / `!! ` lines read back give exactly what happened.
 case-format extensions of C19 (on top of runlib's): case['verbosity'] (DOIT_CONFIG verbosity), task['c19'] =
     {utd_raises, base_exc, prints, verbosity} (see _wrap_task_dict); such cases are outside the run model M1 when an
     exception is planted: the base acceptance is skipped for them (counted), every monitor still applies.
@@ -55,12 +65,14 @@ import time
 
 import common
 import runlib
+import c19text
 
 PROP = 'C19'
 KINDS = ['console', 'executed-only', 'zero', 'error-only', 'json']
 KEYS = ['C19_report_order', 'C19_exec_iff_start', 'C19_truth', 'C19_end_reported', 'C19_exit', 'C19_json',
         'C19_success_means_all_processed']
 OUT_KEY = 'C19_output'
+TEXT_KEY = 'C19_text'
 
 META = {
     'property': PROP,
@@ -79,7 +91,9 @@ META = {
     'technique': 'Lean 4 invariant proofs over the small-step run model (all schedules) extended with the final_result '
                  'fold, the reporter state machines (console family, JsonReporter bookkeeping dict) and MReporter '
                  'forwarding; differential correspondence of every built-in reporter\'s real output and of the callback '
-                 'stream against the model; Lean monitors of the full statement on every implementation trace',
+                 'stream against the model; Lean monitors of the full statement on every implementation trace; '
+                 'wave 5: the four text reporter classes as pure functions call sequence -> lines (Model/ReportText.lean), '
+                 'theorems for all call sequences, character-exact differential test against the real classes',
     'design_ref': '§5 C19, §4 M1, §6.3, §6.4',
     'level_text': 'Machine-checked: in every reachable state of the run model (serial, thread, process; any schedule) '
                   'final_result equals a function of the multiset of failure kinds reported (0 none, 1 only TaskFailed, '
@@ -90,7 +104,11 @@ META = {
                   'MRunner + MReporter as one transition system with the real FIFO result queue (forwarded execute_task '
                   'reports are never lost, duplicated or overtaken by the result of their task); for every disciplined '
                   'stream the JsonReporter bookkeeping never raises and lists each processed task exactly once with '
-                  'its result.  Tied to doit on every run: real runs with all five built-in reporters x three runners, '
+                  'its result.  Text reporters (all call sequences, all task tables): the progress lines of ConsoleReporter decode to exactly '
+                  'the sequence of visible (task, executed | up-to-date | ignored); self.failures / the header lines / the '
+                  'complete_run blocks list exactly the failures with report=True, each once, in order; ExecutedOnlyReporter = '
+                  'ConsoleReporter minus the skip lines; ZeroReporter writes nothing to outstream, ErrorOnlyReporter exactly one '
+                  'header+message per reported failure.  Tied to doit on every run: real runs with all five built-in reporters x three runners, '
                   'real output parsed and compared with the Lean reporter models, the statement evaluated on every trace.',
     'level_note': 'Trusted: Lean kernel; doitdrv; the Python harness (runlib generator / scheduler / token controller, '
                   'the tee subclass of the built-in reporters, the output parsers).  json.dump validity and message '
@@ -112,14 +130,23 @@ META = {
             'reporter through a [REPORTER] plugin section + -r (12%), `actions` rejected only at execution time (4%), values '
             'the DB codec cannot encode (3%), runlib calc_first tasks (p_calc_then_fail 0.15); exhaustive tier: every outcome assignment of '
             'small fixed graphs x --continue x reporter, and every completion order of small thread cases; '
+            'r6: unpicklable values (lock / generator) returned by an extra first action of a failing task (60% of the process-runner '
+            'cases with a failing task, 8% otherwise); -r json serial: teardown callables that print at verbosity 2 or fail (50% of '
+            'the cases, 70% of their teardown tasks); wave 5 (text_unit:*): 3000 (quick) generated reporter-call sequences of 1-15 calls over 1-5 tasks drawn from names '
+            'with leading / inner / trailing underscores, 25% without actions, 20% not executed, verbosity 0/1/2, custom / empty / '
+            'numeric titles, captured out/err, every BaseFail subclass with report on/off and with a caught exception, runtime and '
+            'cleanup errors, complete_run anywhere, reporter class and failure_verbosity drawn uniformly; corpus/C19text; '
             'non-trivial = something got a final report and the case has an edge or a non-success outcome; distinct = '
             'distinct rendered case + reporter + schedule',
-    'assumptions': ['task names do not start with "_" (the console reporters hide such tasks)',
-                    'task verbosity 0 and failure_verbosity 0 (the harness\' DOIT_CONFIG)',
-                    'actions write nothing to stdout/stderr'],
+    'assumptions': ['end-to-end cases: task names do not start with "_" (names with underscores, hidden tasks and call '
+                    'sequences the runner never produces are covered by the directly driven reporter classes, text_unit:*)',
+                    'text model: what complete_run reads from a task (executed, verbosity, captured out/err) is one value '
+                    'per task (the value at complete_run); task names are non-empty'],
     'trusted': ['deterministic thread scheduler and token controller of harness/runlib.py',
                 'tee subclass of the built-in reporter classes (records, then calls the real method)',
-                'parsers of the console lines and of the JSON document'],
+                'parsers of the console lines and of the JSON document',
+                'harness/c19text.py: construction of the real Task / BaseFail objects from a generated call sequence, '
+                'CallLog (what the tee records of each call for the text model)'],
     'models': ['M1'],
 }
 
@@ -201,6 +228,7 @@ def tee_class(kind):
             _LAST.clear()
             _LAST['kind'] = kind
             _LAST['pre_streams'] = (sys.stdout, sys.stderr)
+            self._v_log = c19text.CallLog()      # wave 5: the calls with what the text reporters read from the task
             base.__init__(self, self._v_buf, options)
 
         def _v_text(self):
@@ -226,38 +254,50 @@ def tee_class(kind):
 
         def get_status(self, task):
             rec().ev(['get_status', rec().tid(task)])
+            self._v_log.call('get_status', task)
             return base.get_status(self, task)
 
         def execute_task(self, task):
             rec().ev(['execute', rec().tid(task)])
+            self._v_log.call('execute', task)
             return base.execute_task(self, task)
 
         def add_failure(self, task, fail):
             rec().ev(['failure', rec().tid(task), runlib._fail_kind(fail), type(fail).__name__])
+            self._v_log.failure(task, fail)
             return base.add_failure(self, task, fail)
 
         def add_success(self, task):
             rec().ev(['success', rec().tid(task)])
+            self._v_log.call('success', task)
             return base.add_success(self, task)
 
         def skip_uptodate(self, task):
             rec().ev(['skip_uptodate', rec().tid(task)])
+            self._v_log.call('skip_uptodate', task)
             return base.skip_uptodate(self, task)
 
         def skip_ignore(self, task):
             rec().ev(['skip_ignore', rec().tid(task)])
+            self._v_log.call('skip_ignore', task)
             return base.skip_ignore(self, task)
 
         def cleanup_error(self, exception):
             rec().ev(['cleanup_error'])
+            try:
+                self._v_log.msg('cleanup_error', exception.get_msg())
+            except Exception:  # noqa
+                self._v_log.bad = 'cleanup message'
             return base.cleanup_error(self, exception)
 
         def runtime_error(self, msg):
             rec().ev(['runtime_error', str(msg)[:200]])
+            self._v_log.msg('runtime_error', msg)
             return base.runtime_error(self, msg)
 
         def teardown_task(self, task):
             rec().ev(['teardown', rec().tid(task)])
+            self._v_log.call('teardown', task)
             return base.teardown_task(self, task)
 
         def complete_run(self):
@@ -265,6 +305,8 @@ def tee_class(kind):
             # complete_run is called from `finally: self.finish()`: an exception that is leaving run_all is visible here
             inflight = sys.exc_info()[0]
             _LAST['inflight'] = inflight.__name__ if inflight is not None else None
+            if kind != 'json':
+                self._v_log.complete(self)
             try:
                 return base.complete_run(self)
             except BaseException as e:  # noqa
@@ -272,6 +314,9 @@ def tee_class(kind):
                 raise
             finally:
                 _LAST['text'] = self._v_text()
+                if kind != 'json':
+                    _LAST['textlog'] = self._v_log.request(kind, getattr(self, 'failure_verbosity', 0))
+                    _LAST['textlog_bad'] = self._v_log.bad
                 pre = _LAST.pop('pre_streams', (None, None))
                 # the reporter that redirects the process' streams (json) has to give them back, whatever happens
                 _LAST['streams_restored'] = (sys.stdout is pre[0] and sys.stderr is pre[1])
@@ -310,6 +355,10 @@ def _wrap_task_dict(d, t, n, rec):
                                   title_with_actions / a function returning a number)
       lazy_bad: 'int' | 'tuple4'  `actions` holds an element doit rejects only when the action objects are created, i.e.
                                   inside the runner at execution time (InvalidTask -> runtime_error, run aborted, exit 2)
+      unpicklable: 'lock' | 'gen' (tasks whose outcome is 'failed' / 'error') an extra FIRST action returns a dict holding a
+                                  threading.Lock / a generator; the task's own action then fails (r6)
+      td: 'prints' | 'fails'      (tasks with a teardown) one more teardown callable that writes TD-OUT-<n> / TD-ERR-<n> to
+                                  stdout / stderr, or raises RuntimeError('TD-FAIL-<n>') -> reporter.cleanup_error (r6)
       bad_values: 'set' | 'bytes' (tasks whose outcome is 'saveerr') the actions succeed and return a dict with a value the DB
                                   codec cannot encode: save_success fails, the task is a DependencyError failure (model: saveErr)"""
     x = _extras(t)
@@ -362,6 +411,30 @@ def _wrap_task_dict(d, t, n, rec):
             return r
         act_badvals.__name__ = 'act_badvals_%d' % n
         d['actions'] = list(d['actions'][:-1]) + [act_badvals]
+    if x.get('unpicklable') and t['outcome'] in ('failed', 'error') and not x.get('base_exc') and not x.get('lazy_bad') \
+            and not t.get('calc_first') and not t.get('calc_res'):
+        # r6: a task of >= 2 actions; an EARLIER action returns values that cannot be pickled (a lock / a generator), a LATER
+        # one fails.  What happened is the failure of that action (TaskFailed / TaskError) whatever the runner: the process
+        # runner's "result not picklable" branch must keep it (`result.setdefault('failure', ...)`)
+        what = x['unpicklable']
+
+        def act_unpicklable():
+            import threading
+            return {'held': threading.Lock() if what == 'lock' else (i for i in ())}
+        act_unpicklable.__name__ = 'act_unpicklable_%d' % n
+        d['actions'] = [act_unpicklable] + list(d['actions'])
+    if x.get('td') and t.get('teardown') and d.get('teardown') and not x.get('base_exc'):
+        # r6: a teardown callable that writes to stdout / stderr (seen at task verbosity 2) or that fails
+        td_kind = x['td']
+
+        def td_extra():
+            if td_kind == 'prints':
+                sys.stdout.write('TD-OUT-%d\n' % n)
+                sys.stderr.write('TD-ERR-%d\n' % n)
+                return None
+            raise RuntimeError('TD-FAIL-%d' % n)
+        td_extra.__name__ = 'td_extra_%d' % n
+        d['teardown'] = list(d['teardown']) + [td_extra]
     if x.get('lazy_bad'):
         d['actions'] = [3] if x['lazy_bad'] == 'int' else [(orig, [], {}, 1)]
     if x.get('verbosity') is not None:
@@ -691,6 +764,22 @@ def observe(case, keep_raw=True):
             if not outside and not crashed and (out.get('stray_out') or out.get('stray_err')):
                 obs['problems'].append('output besides the JSON document: stdout %r stderr %r'
                                        % (out.get('stray_out', '')[:80], out.get('stray_err', '')[:80]))
+        if not outside and not crashed:
+            # r6: teardown actions run BEFORE the report is completed: what they print (verbosity 2) and their failures
+            # (cleanup_error) are in the document, and nothing follows the document on the process' stdout
+            if (obs.get('stdout_end') or '').strip():
+                obs['problems'].append('output on the process\' stdout besides / after the JSON document: %r'
+                                       % obs['stdout_end'][:80])
+            tds = [e[1] for e in obs['full'] if e[0] == 'teardown']
+            for n in tds:
+                t = case['tasks'][n] if isinstance(n, int) and n < len(case['tasks']) else {}
+                td = _extras(t).get('td')
+                if td == 'fails' and text is not None and ('TD-FAIL-%d' % n) not in text:
+                    obs['problems'].append('the failure of the teardown of %s (cleanup_error) is not in the JSON document'
+                                           % t.get('name'))
+                if td == 'prints' and text is not None and ('TD-OUT-%d' % n) not in text and \
+                        _extras(t).get('verbosity') == 2 and case.get('cli_verbosity') is None:
+                    obs['problems'].append('what the teardown of %s printed is not in the JSON document' % t.get('name'))
         if out.get('streams_restored') is False:
             obs['problems'].append('JsonReporter.complete_run left sys.stdout / sys.stderr redirected to its buffers'
                                    + (' (it raised %s)' % crashed if crashed else ''))
@@ -735,6 +824,10 @@ def failed_monitors(case, obs, ans):
             failed.append('C19_json')
     elif lean is not None and obs['err'] is None and ans.get('render') != obs.get('tokens'):
         failed.append(OUT_KEY)
+    if kind != 'json' and lean is not None and ans.get('text_out') is not None \
+            and ans['text_out'] != (obs.get('out') or {}).get('text'):
+        # wave 5: character-exact text of the real reporter vs Model/ReportText.lean on the calls it really got
+        failed.append(TEXT_KEY)
     return failed
 
 
@@ -844,6 +937,7 @@ def make_witness(case, obs, ans):
             'reporter_output': (obs['out'].get('text') or '')[:1500],
             'tokens': obs.get('tokens'), 'doc': obs.get('doc'),
             'model_render': (ans or {}).get('render'), 'model_json': (ans or {}).get('json'),
+            'model_text': ((ans or {}).get('text_out') or '')[:1500] if (ans or {}).get('text_out') is not None else None,
             'failed_monitors': sorted(failed), 'python_monitors': py, 'lean_monitors': lean, 'detail': det}
 
 
@@ -852,12 +946,45 @@ def ask19(pairs):
     if not reqs:
         return []
     try:
-        return common.drv_batch(reqs)
+        answers = common.drv_batch(reqs)
     except Exception as ex:  # noqa
         return [{'error': 'driver failed: %s' % str(ex)[:200]} for _ in reqs]
+    # wave 5: the exact text of the console-family reporters for the calls the real reporter got (Model/ReportText.lean)
+    idx = [i for i, (c, o) in enumerate(pairs) if text_comparable(c, o) is True]
+    try:
+        tans = common.drv_batch([pairs[i][1]['out']['textlog'] for i in idx])
+    except Exception as ex:  # noqa
+        tans = [{'error': str(ex)[:100]} for _ in idx]
+    for i, a in zip(idx, tans):
+        if 'error' not in a and 'error' not in answers[i]:
+            answers[i]['text_out'] = a['out']
+            answers[i]['text_happened'] = a['happened']
+            answers[i]['text_blocks'] = a['blocks']
+    return answers
+
+
+def text_comparable(case, obs):
+    """True, or the reason why the exact-text comparison does not apply to this end-to-end observation"""
+    out = obs.get('out') or {}
+    if case.get('reporter', 'console') == 'json':
+        return 'json'
+    if not out.get('textlog'):
+        return 'no complete_run'
+    if out.get('textlog_bad'):
+        return 'recorder: %s' % out['textlog_bad']
+    if out.get('raised') or out.get('text') is None:
+        return 'complete_run raised'
+    if case.get('out_encoding'):
+        return 'restricted output encoding'
+    return True
 
 
 def count19(st, case, obs):
+    if case.get('reporter') != 'json':
+        tc = text_comparable(case, obs)
+        st.count('text_e2e:%s' % ('compared' if tc is True else 'skipped(%s)' % tc))
+        if tc is True:
+            st.count('text_e2e:chars', len(obs['out'].get('text') or ''))
     runlib.count_case(st, case, obs)
     st.count('reporter:%s' % case.get('reporter'))
     st.count('reporter:%s:%s' % (case.get('reporter'), case['runner']))
@@ -871,6 +998,10 @@ def count19(st, case, obs):
     for t in case['tasks']:
         for k, v in _extras(t).items():
             st.count('extra:%s=%s' % (k, v))
+    if any(_extras(t).get('unpicklable') for t in case['tasks']):
+        started = {e[1] for e in obs['full'] if e[0] == 'start'}
+        hit = any(_extras(t).get('unpicklable') and n in started for n, t in enumerate(case['tasks']))
+        st.count('r6:unpicklable_values_then_failing_action:%s:%s' % (case['runner'], 'executed' if hit else 'not-reached'))
     if case.get('verbosity') is not None:
         st.count('extra:global_verbosity=%s' % case['verbosity'])
     if case.get('out_encoding'):
@@ -959,6 +1090,22 @@ def decorate(c, rng):
                 t.setdefault('c19', {}).setdefault('prints', True)
                 if c.get('verbosity') is None or rng.random() < 0.3:
                     t['c19']['verbosity'] = rng.choice([2, 2, 1])
+    # r6 (drawn last: the stream of the earlier decorations is unchanged): unpicklable values, then a failing action
+    cand = [t for t in real if t['outcome'] in ('failed', 'error') and not _extras(t).get('base_exc')
+            and not _extras(t).get('lazy_bad') and not _extras(t).get('sigkill')
+            and not t.get('calc_first') and not t.get('calc_res')]
+    if cand and rng.random() < (0.6 if c['runner'] == 'process' else 0.08):
+        for t in cand:
+            if rng.random() < 0.7:
+                t.setdefault('c19', {})['unpicklable'] = rng.choice(['lock', 'gen'])
+    # r6: -r json, serial runner: teardown callables that print (task verbosity 2) or fail -- what they write / their failure
+    # belongs INTO the single JSON document (out / err), nothing may follow it on the process' stdout
+    if c.get('reporter') == 'json' and c['runner'] == 'serial' and not c.get('out_encoding') and rng.random() < 0.5:
+        for t in real:
+            if t.get('teardown') and not _extras(t).get('base_exc') and not _extras(t).get('lazy_bad') and rng.random() < 0.7:
+                t.setdefault('c19', {})['td'] = rng.choice(['prints', 'fails'])
+                if t['c19']['td'] == 'prints' and c.get('cli_verbosity') is None:
+                    t['c19']['verbosity'] = 2
     if 'model' in c:
         c['model'] = runlib.expand(c)      # outcomes / calc_first may have changed
     return c
@@ -966,6 +1113,8 @@ def decorate(c, rng):
 
 def eval_batch(batch):
     """worker: batch = {'cases': [...]} / {'gen': [(seed, knobs, reporter)]} / {'exhaustive': [thread cases]}"""
+    if 'text_gen' in batch or 'text_cases' in batch:
+        return c19text.eval_text_batch(batch)        # wave 5: the text reporter classes driven directly
     st = common.WorkerStats()
     common.use_repo()
     pairs = []
@@ -1158,7 +1307,13 @@ def run(ctx, scale=1.0):
     cpool, cmain = corpus_batches()
     ctx.count('corpus', sum(len(b.get('cases', [])) + len(b.get('exhaustive', [])) for b in cpool + cmain))
     pool, main = plan(ctx, scale)
-    batches = cpool + exhaustive_batches(ctx) + pool
+    n_text = int((3000 if ctx.tier == 'quick' else 40000) * ctx.boost * scale)
+    tseeds = [ctx.rng.randrange(1 << 60) for _ in range(n_text)]
+    tcorp = [c for _n, c in common.load_corpus(PROP + 'text')]
+    text = [{'text_gen': tseeds[i:i + 500]} for i in range(0, n_text, 500)]
+    if tcorp:
+        text.insert(0, {'text_cases': tcorp})
+    batches = cpool + text + exhaustive_batches(ctx) + pool
     for st in common.pmap(eval_batch, batches):
         st.merge_into(ctx)
     if ctx.violations:
@@ -1175,6 +1330,19 @@ def search(ctx):
 
 def replay(ctx, data):
     w = data.get('witness') or {}
+    if w.get('text_case'):
+        tc = w['text_case']
+        real, req, ans, probs = c19text.check_one(tc)
+        print('%s reporter driven directly, failure_verbosity=%s' % (tc['cls'], tc['fv']))
+        for i, t in enumerate(req['tasks']):
+            print('  task %d: %s' % (i, t))
+        print('  calls:', req['calls'])
+        print('real outstream :\n' + real['out'])
+        print('model outstream:\n' + ans.get('out', '<driver error>'))
+        print('real stderr : %r\nmodel stderr: %r' % (real['err'], ans.get('err')))
+        if probs:
+            print('FAILED monitors: [%r]' % TEXT_KEY, probs)
+        return not probs
     case = w.get('case')
     if not case:
         print('nothing to replay (no failing input was found): %s' % data.get('note'))
